@@ -247,6 +247,10 @@ def _make_wrench(case, key, p_top, ctx):
         ctx.label("wrench form makeWrench")
     else:
         W6 = np.concatenate([m, f])
+        if w.get("whole"):
+            # a load typed in whole newtons / newton-metres: an integer-typed array is a wrench like any other
+            W6 = np.round(W6).astype(np.int64)
+            ctx.label("wrench data integer-typed")
         obj = sut(Wrench, W6.reshape((6, 1)).copy() if form == "w61" else W6.copy())
         ctx.label("wrench form " + ("(6,1)" if form == "w61" else "(6,)"))
     W = np.array(obj.data, dtype=float).reshape(6).copy()
@@ -315,9 +319,23 @@ def c_invjac(case, ctx):
     ctx.label("|V| " + _decade(float(np.linalg.norm(V))))
     ctx.nontrivial(e.base_nonid and hasw and hasv)
 
-    J = np.asarray(sut(sp.inverseJacobian, *e.pargs), dtype=float)
+    Jret = sut(sp.inverseJacobian, *e.pargs)
+    J = np.array(Jret, dtype=float, copy=True)
     if J.shape != (6, 6) or not np.all(np.isfinite(J)):
         raise Violation("inverseJacobian returned shape %s / non-finite entries" % (J.shape,))
+    if case.get("keep") is not None and isinstance(Jret, np.ndarray):
+        # The caller KEEPS the matrix it was handed for this pose and goes on to ask about another pose (a planner
+        # comparing the two): the first matrix is still the inverse Jacobian of the first pose.
+        u2 = np.asarray(case["keep"], dtype=float) * 0.5
+        other = sps.make_tm(e.T_bot @ sps.rel_T(model, u2), "mat")
+        with time_guard(GUARD_S):
+            sut(sp.inverseJacobian, top_plate_pos=other, bottom_plate_pos=sps.make_tm(e.T_bot, "mat"))
+        ctx.label("matrix kept across a query at another pose")
+        if not np.array_equal(np.asarray(Jret, dtype=float), J):
+            raise Violation("the inverse Jacobian returned for one pose changed (by up to %.3g) when inverseJacobian was "
+                            "asked about another pose" % float(np.abs(np.asarray(Jret, dtype=float) - J).max()))
+        if not sps.accepted_unchanged(sp, e.T_bot, e.T_top) and e.mode != "args":
+            raise Violation("inverseJacobian at an explicitly given pose moved the plates of the platform")
     rates = _forces(sut(sp.velocityAtJoints, V.copy(), *e.pargs), "velocityAtJoints")
 
     Jn = float(np.linalg.norm(e.Jo, 2))
@@ -539,7 +557,7 @@ def _wrenches(draw, make=True):
         m, f = np.zeros(3), np.zeros(3)
     forms = ["w6", "w61", "make"] if make else ["w6", "w61"]
     return {"m": m, "f": f, "about": draw(st.sampled_from(["origin", "plate", "plate"])),
-            "form": draw(st.sampled_from(forms))}
+            "form": draw(st.sampled_from(forms)), "whole": draw(st.sampled_from([False, False, False, True]))}
 
 
 @st.composite
@@ -590,7 +608,7 @@ def _pose_part():
 
 def _jac_cases():
     return st.fixed_dictionaries(dict(_pose_part(), V=_twists(), V_frame=st.sampled_from(["space", "top"]),
-                                      ik_cross=st.booleans()))
+                                      ik_cross=st.booleans(), keep=st.one_of(st.none(), sps.rel_poses())))
 
 
 def _space_cases():
